@@ -51,6 +51,9 @@ pub enum Event {
     SetEidResp(u8),
     /// `get_length(bytes)`
     GetLength(#[serde(with = "hexv")] Vec<u8>),
+    /// an encoder call whose output is discarded (contexts that have already
+    /// been used to encode something)
+    Encode { call: EncCall, dst: u8 },
 }
 
 /// Which half of the context an encoder is called on.
